@@ -5,6 +5,7 @@ Operations:
   ('newsys',)          System()                       (at most `max_sys`)
   ('create', kind)     one asset of that kind, registered by its own constructor with whatever system is active
   ('simulate', i, d)   systems[i].simulate(d)          (RuntimeError expected unless i is the newest)
+  ('readd',)           newest.add_asset(x) for an asset x that is registered with it already (must change nothing)
 Reference: the list of assets each system should know, in creation order; an initialisation counter per asset fed by
 the logging wrapper around Asset.initialize (mc/line.py).
 '''
@@ -76,6 +77,8 @@ class LifeWorld(CompWorld):
         for i in range(len(self.systems)):
             for d in self.durations:
                 out.append(('simulate', i, d))
+        if self.systems and self.ref[-1]:
+            out.append(('readd',))
         return self.restrict_first(out)
 
     # ------------------------------------------------------------------ globals
@@ -184,6 +187,17 @@ class LifeWorld(CompWorld):
                     if s.env.now != t0 + d:
                         raise Violation('clock', f'simulate({d}) from {t0} ended at {s.env.now}')
                     self.facts.append('simulated' if t0 == 0 else 'continued')
+            elif k == 'readd':
+                s = self.systems[-1]
+                a = s._assets[len(s._assets) // 2]
+                try:
+                    s.add_asset(a)
+                except Exception as e:
+                    if not __import__('mc').library_origin(e):
+                        raise
+                    raise Violation('readd', f'add_asset() of the already registered {a.name} raised {type(e).__name__}: {e} '
+                                             f'(system started: {s._simulation_is_initialized})')
+                self.facts.append('readd_after_start' if s._simulation_is_initialized else 'readd_before_start')
             else:
                 raise HarnessError(f'unknown op {label}')
             for t in self.hub.tlog:
@@ -218,6 +232,12 @@ class LifeWorld(CompWorld):
                 raise Violation('find_assets', 'non-empty result on an empty system')
             return
         some = assets[len(assets) // 2]
+        # filter values that are falsy but not None are filters too
+        for kw in ({'name': ''}, {'id_': 0}, {'subtype': ()}, {'name': '', 'type_': type(some)}, {'id_': 0, 'name': some.name}):
+            got = s.find_assets(**kw)
+            if got != []:
+                raise Violation('find_assets', f'find_assets({kw}) -> {[a.name for a in got]}, expected [] (no asset has that '
+                                               f'name / id / is an instance of no class)')
         for nm in (None, some.name, 'no such asset'):
             for i in (None, int(str(some.id)), 987654):      # equal to the id, not the same int object
                 for ty in (None, type(some), Source):
